@@ -9,7 +9,12 @@ Sub-claims (DESIGN §4 C20):
      clamped outside, scalar in -> scalar out, array in -> array of the same shape, non-finite query -> ValueError.
   c  to_dataframe: exactly the per-bin arrays, indexed by f, for every result kind (single-bin and equal-K plans included);
      a result survives copy / deepcopy / pickle in any order interleaved with reads, bit-identically.
-(c) is Python object protocol: it is decided by the oracle on the real objects only.
+  d  "views of ONE estimate": no read-only operation of a result — attribute read, get_measurement, get_rms (any band), to_dataframe,
+     plot() (every `which`, with / without error band, every sigma / deg / dB / unwrap / ax), len, repr, dir, copy, deepcopy, pickle — changes what
+     any name of dir(result) reports: after EVERY operation of a sequence every public name equals, bit for bit, the snapshot of a pristine twin
+     built from the same input and never operated on, and the identities of (a) hold (seeded defect C10g: plot(which="bode", errors=True, sigma=k)
+     scaled the cached Hxy_mag_error / Hxy_deg_error / Hxy_rad_error in place).
+(c), (d) are Python object protocol: they are decided by the oracle on the real objects only.
 """
 from __future__ import annotations
 
@@ -116,8 +121,10 @@ ASSUMPTIONS = ["translated each run and proved equal to the specification (Props
                "asd_sq assumes XX >= 0, S2 >= 0, fs > 0 (true of every computed result)",
                "interp_* theorems assume a strictly increasing frequency grid (C03); get_measurement's scalar/array shape handling and its "
                "ValueError on non-finite queries are checked on the real code only",
-               "to_dataframe, copy.copy, copy.deepcopy, pickle, len, repr are Python object protocol: no Lean model; they are decided by the "
-               "oracle on real SpectrumResult objects only (all result kinds x random operation sequences)",
+               "to_dataframe, copy.copy, copy.deepcopy, pickle, len, repr, dir, get_rms, plot are Python object protocol (plot: matplotlib on the Agg "
+               "backend): no Lean model; that none of them changes what the result reports is decided by the oracle on real SpectrumResult objects "
+               "only (all result kinds x random operation sequences, every name of dir(result) compared with a pristine twin after every operation); "
+               "whether plot / get_rms raise for a given result is not demanded, nor what they draw / return",
                "'unknown attribute -> AttributeError' is demanded for plain unknown names only (names ending in _dev/_error currently fall "
                "through to None; the property text does not list them, so they are not demanded)"]
 RULE = ("result = (kind in full/banded/equal-K via Lmin=N/equal-K via band/single-bin/edge(zero, constant, tiny record)/constructed-from-bins/"
@@ -131,9 +138,17 @@ RULE = ("result = (kind in full/banded/equal-K via Lmin=N/equal-K via band/singl
         "deepcopy, pickle, to_dataframe, get_measurement (checked values), get_measurement of ANY name incl. aliases / data fields / non-finite "
         "tables, get_rms, len, repr, dir} compared bit-for-bit (NaN positions included) with an independently built twin that was never queried: "
         "after each query the queried name and its aliases, at the end every attribute of the final object, of the original, and of the "
-        "fully queried twin against its own pre-query snapshot; distinct by (kind, mode, check, attribute / query class / op tuple); "
+        "fully queried twin against its own pre-query snapshot; AFTER EVERY OPERATION of a sequence every public non-callable name of dir(result) "
+        "(dynamic names, G, data fields, iscsd, fs, nf) against the pristine twin's snapshot + the identities of (a) [read on the object itself in a random "
+        "order, or - so that the lazy-cache state stays as the operations made it - only the names it already holds on the object and everything on a "
+        "deep copy]; the operations include get_rms(None / inside / reversed / wider than the grid / degenerate / grid-aligned / list / array / NaN band) and "
+        "plot(): `which` values and options read from the source of SpectrumResult.plot; calls that draw nothing (other result kind, unknown name) in any "
+        "sequence, figure-making calls from a budget (~40 per quick run, figures closed at once): a plot stream over auto / cross x multi-bin / single-bin / "
+        "uniform-K / dead-channel-or-other results, each with one call per applicable `which` WITH an error band of sigma in {0.5, 2, 3} (bode: all eight "
+        "(deg, unwrap, dB) settings over the stream) + calls from the whole option space (errors, sigma in {0.5, 1, 2, 3}, dB, deg, unwrap, own Axes, ylabel, "
+        "color), mixed into random sequences of the other operations; distinct by (kind, mode, check, attribute / query class / op tuple / plot options); "
         "non-trivial = the quantity compared is non-zero on at least one bin (identities), nf >= 2 (interpolation), a sequence with >= 1 "
-        "copy/pickle step, a query on a table with a non-finite entry")
+        "copy/pickle step, a query on a table with a non-finite entry, a plot() call that returned a figure")
 
 U = 2.0 ** -53
 LIBERR = (Exception, SystemExit)     # some schedulers call sys.exit() on an empty plan: an error outcome like any other here
@@ -157,10 +172,22 @@ KINDS = ["full", "full", "band", "equalK-Lmin", "equalK-band", "single", "single
 # `query` = get_measurement(random query form, ANY attribute name: derived, alias, pass-through data field, None-valued, non-finite table);
 # `rms` = get_rms(None / random band); both are followed by a bit-for-bit comparison with the never-queried twin.
 # Forced sequences may pin the argument: "query:<name>", "read:<name>", "pickle:<protocol>".
-OPS = ["read", "read", "read", "copy", "deepcopy", "pickle", "df", "meas", "len", "repr", "dir", "query", "query", "query", "rms"]
+# `plotx` = plot() with a `which` that draws nothing for this result kind (or an unknown one): it still evaluates the method's dispatch table;
+# figure-making plot() calls ("plot:<which=..,errors=..,sigma=..,...>") are inserted per case from a budget (run_case(..., plots=k)).
+OPS = ["read", "read", "read", "copy", "deepcopy", "pickle", "df", "meas", "len", "repr", "dir", "query", "query", "query", "rms", "rms", "plotx"]
 # aliases that may share one array in the lazy cache: a write through one name shows up under the others
 ALIASES = [("Gxx", "psd", "G", "Gyy", "Gxy"), ("Gxy", "csd"), ("Hxy", "tf"), ("Gxx_dev", "Gyy_dev"), ("Gxx_error", "Gyy_error"),
            ("XX", "XX_mean", "YY_mean"), ("YY", "YY_mean"), ("M2", "XY_M2")]
+# plot(): `which` values and keyword options as shipped (used when the source of SpectrumResult.plot can no longer be inspected; otherwise the
+# dispatch table / the comparisons with `which` / the signature are read from the source, so a new branch or option is exercised as well)
+PLOT_WHICH = ["psd", "asd", "coh", "csd", "cf", "bode"]
+PLOT_OPTS = {"ax": None, "ylabel": None, "dB": False, "deg": True, "unwrap": True, "errors": False, "sigma": 1}
+PLOT_KIND = {"psd": "auto", "asd": "auto", "coh": "cross", "csd": "cross", "cf": "cross", "bode": "cross"}   # which draws a figure for which result kind
+SIGMAS = [0.5, 1, 2, 3]
+# the dedicated plot stream of the oracle: (kind, cross) -> every result class the property quantifies over gets figure-making plot() calls
+PLOT_STREAM = [("full", False), ("full", True), ("single", False), ("single", True), ("equalK-Lmin", False), ("equalK-Lmin", True), (None, False), (None, True)]
+PLOTS_CROSS, PLOTS_AUTO = 6, 2          # figure-making calls per result of the stream (cross: bode deg / bode rad / coh / csd / cf + 1 random)
+RMS_FORMS = ["none", "inside", "inside", "reversed", "wide", "degenerate", "grid", "list", "array", "nan"]
 
 
 # ---------------------------------------------------------------- small helpers
@@ -271,7 +298,8 @@ def maxdiff(a: Any, b: Any) -> str:
 def add_violation(P: C.Part, what: str, signature: Dict[str, Any], case: Dict[str, Any], extra: Optional[Dict[str, Any]] = None) -> None:
     if len(P.violations) >= MAX_VIOL or any(v.signature == signature for v in P.violations):
         return
-    rep = {"recipe": case["recipe"], "case_seed": case["case_seed"], "forced_ops": case.get("forced_ops")}
+    rep = {"recipe": case["recipe"], "case_seed": case["case_seed"], "forced_ops": case.get("forced_ops"), "plots": int(case.get("plots") or 0),
+           "plot_phase": case.get("plot_phase")}
     if extra:
         rep["detail"] = extra
     P.violations.append(C.Violation(what=what, signature=signature, replay=rep))
@@ -852,11 +880,257 @@ def alias_group(name: str) -> List[str]:
     return g
 
 
+# ---------------------------------------------------------------- plot(): a read-only operation like any other
+_PLOT_SPEC: Optional[Tuple[List[str], Dict[str, Any]]] = None
+
+
+def plot_spec() -> Tuple[List[str], Dict[str, Any]]:
+    """(the `which` values SpectrumResult.plot dispatches on, its keyword options with their defaults), read from the source of the method"""
+    global _PLOT_SPEC
+    if _PLOT_SPEC is None:
+        whiches, opts = list(PLOT_WHICH), dict(PLOT_OPTS)
+        try:
+            import ast
+            import inspect
+            import textwrap
+            from speckit.analysis import SpectrumResult
+            fn = SpectrumResult.plot
+            sig = inspect.signature(fn)
+            got = {n: p.default for n, p in sig.parameters.items()
+                   if n not in ("self", "which") and p.kind in (p.KEYWORD_ONLY, p.POSITIONAL_OR_KEYWORD) and p.default is not p.empty}
+            if got:
+                opts = got
+            found: List[str] = []
+            for node in ast.walk(ast.parse(textwrap.dedent(inspect.getsource(fn)))):
+                if isinstance(node, ast.Dict) and node.keys and all(isinstance(k, ast.Constant) and isinstance(k.value, str) for k in node.keys):
+                    found += [k.value for k in node.keys]                      # the dispatch table (and the per-quantity error table)
+                if isinstance(node, ast.Compare) and isinstance(node.left, ast.Name) and node.left.id == "which":
+                    for c in node.comparators:
+                        for e in ([c] if isinstance(c, ast.Constant) else list(getattr(c, "elts", []))):
+                            if isinstance(e, ast.Constant) and isinstance(e.value, str):
+                                found.append(e.value)
+            for w in found:
+                if w not in whiches and w.isidentifier():
+                    whiches.append(w)
+        except Exception:  # noqa  (the oracle keeps working with the shipped lists)
+            pass
+        _PLOT_SPEC = (whiches, opts)
+    return _PLOT_SPEC
+
+
+def enc_plot(spec: Dict[str, Any]) -> str:
+    return ",".join(f"{k}={spec[k]}" for k in spec)
+
+
+def dec_plot(arg: str) -> Dict[str, Any]:
+    import ast
+    spec: Dict[str, Any] = {}
+    for part in [p for p in str(arg).split(",") if p]:
+        k, _, v = part.partition("=")
+        if k in ("which", "ylabel", "color", "label"):
+            spec[k] = None if v == "None" else v
+        else:
+            try:
+                spec[k] = ast.literal_eval(v)
+            except Exception:  # noqa
+                spec[k] = v
+    return spec
+
+
+def plot_fill(rng: np.random.Generator, spec: Dict[str, Any], opts: Dict[str, Any]) -> Dict[str, Any]:
+    """`spec` completed with a random value of every remaining option of the signature"""
+    out: Dict[str, Any] = {"which": spec.get("which")}
+    for n, dflt in opts.items():
+        if n in spec:
+            out[n] = spec[n]
+        elif n == "sigma":
+            out[n] = [0.5, 1, 2, 3][int(rng.integers(0, 4))]
+        elif n == "ax":
+            out[n] = bool(rng.random() < 0.2)               # True = an Axes of our own is passed in
+        elif n == "ylabel":
+            if rng.random() < 0.2:
+                out[n] = "level"
+        elif isinstance(dflt, bool):
+            out[n] = bool(rng.integers(0, 2))
+    if "color" in spec or rng.random() < 0.3:
+        out["color"] = spec.get("color") or str(rng.choice(["C1", "k"]))      # forwarded through **kwargs; the error band reuses it
+    return out
+
+
+def plot_plan(rng: np.random.Generator, iscsd: bool, k: int, phase: Optional[int] = None) -> List[Dict[str, Any]]:
+    """k figure-making plot() calls for a result: first one call per applicable `which` WITH an error band of sigma != 1 (bode: two calls with
+    complementary (deg, unwrap, dB) settings chosen by the three bits of `phase`, so that cases with phases 0..3 go through all eight of them),
+    then calls drawn from the whole option space"""
+    whiches, opts = plot_spec()
+    ph = int(rng.integers(0, 8)) if phase is None else int(phase)
+    bits = [bool(ph & 1), bool(ph & 2), bool(ph & 4)]
+    mode = "cross" if iscsd else "auto"
+    figw = [w for w in whiches if PLOT_KIND.get(w, mode) == mode]
+    default = "bode" if iscsd else "asd"
+    nz = lambda: [0.5, 2, 3][int(rng.integers(0, 3))]
+    must: List[Dict[str, Any]] = []
+    for w in figw:
+        ww = None if (w == default and rng.random() < 0.5) else w
+        if w == "bode":
+            must.append({"which": ww, "errors": True, "sigma": nz(), "deg": bits[0], "unwrap": bits[1], "dB": bits[2]})
+            must.append({"which": None if rng.random() < 0.5 else w, "errors": True, "sigma": nz(), "deg": not bits[0], "unwrap": not bits[1], "dB": not bits[2]})
+        else:
+            must.append({"which": ww, "errors": True, "sigma": nz()})
+    must = [must[int(j)] for j in rng.permutation(len(must))]
+    specs = must[:k]
+    while len(specs) < k:
+        specs.append({"which": ([None] + figw)[int(rng.integers(0, len(figw) + 1))], "errors": bool(rng.random() < 0.6)})
+    return [plot_fill(rng, s, opts) for s in specs]
+
+
+def plot_inapplicable(rng: np.random.Generator, iscsd: bool) -> Dict[str, Any]:
+    """a plot() call that draws nothing: a `which` of the other result kind, or an unknown one (the method still evaluates its dispatch table)"""
+    whiches, opts = plot_spec()
+    mode = "cross" if iscsd else "auto"
+    other = [w for w in whiches if PLOT_KIND.get(w, mode) != mode] + ["nonsense", "PSD"]
+    return plot_fill(rng, {"which": other[int(rng.integers(0, len(other)))], "errors": bool(rng.random() < 0.7)}, opts)
+
+
+def run_plot(obj, spec: Dict[str, Any]) -> Tuple[bool, Optional[str]]:
+    """obj.plot(**spec) on the Agg backend, every figure closed afterwards; (a figure came back, class of the exception if it raised)"""
+    import matplotlib
+    try:
+        if "agg" not in str(matplotlib.get_backend()).lower():
+            matplotlib.use("Agg")
+    except Exception:  # noqa
+        pass
+    import matplotlib.pyplot as plt
+    kw = {k: v for k, v in spec.items() if k != "ax"}
+    try:
+        if spec.get("ax"):
+            kw["ax"] = plt.subplots()[1]
+        out = obj.plot(**kw)
+        return bool(isinstance(out, tuple) and len(out) == 2), None
+    except Exception as ex:  # noqa  (whether a quantity can be drawn at all is not this property)
+        return False, type(ex).__name__
+    finally:
+        if plt.get_fignums():
+            plt.close("all")
+
+
+def rms_band(rng: np.random.Generator, fgrid: Optional[np.ndarray], form: str) -> Any:
+    if form == "none" or fgrid is None or len(fgrid) == 0:
+        return None
+    lo, hi = float(fgrid[0]), float(fgrid[-1])
+    a, b = sorted(float(v) for v in rng.uniform(lo, hi if hi > lo else lo + 1.0, size=2))
+    if form == "reversed":
+        return (b, a)
+    if form == "wide":
+        return (0.5 * lo - 1.0, 2.0 * hi + 1.0)
+    if form == "degenerate":
+        return (a, a)
+    if form == "grid":
+        i, j = sorted(int(v) for v in rng.integers(0, len(fgrid), size=2))
+        return (float(fgrid[i]), float(fgrid[j]))
+    if form == "list":
+        return [a, b]
+    if form == "array":
+        return np.array([a, b])
+    if form == "nan":
+        return (a, float("nan"))
+    if form == "outside":
+        return (2.0 * hi + 1.0, 3.0 * hi + 2.0)
+    return (a, b)
+
+
+def held_names(obj, ref: Dict[str, Any]) -> List[str]:
+    """names of the snapshot that the object currently HOLDS (instance attribute, entry of the result dictionary or of the lazy cache):
+    reading them computes nothing new, so the lazy state of the object is left as the operations under test made it"""
+    d = vars(obj)
+    held = set(d)
+    for part in ("_cache", "_data"):
+        if isinstance(d.get(part), dict):
+            held |= set(d[part])
+    return [n for n in ref if n in held]
+
+
+def check_all(P: C.Part, obj, case, tag: str, ref: Dict[str, Any], names: List[str], done: List[str], via: str) -> bool:
+    """every name of `names` read on `obj` is, bit for bit (NaN positions included), what the pristine twin reported before the sequence"""
+    mode = "cross" if case["recipe"]["iscsd"] else "auto"
+    op = done[-1].split(":")[0] if done else "start"
+    with quiet():
+        for n in names:
+            if n == "compute_t" or n not in ref:
+                continue
+            P.cases += 1
+            try:
+                v = getattr(obj, n)
+            except AttributeError:
+                v = "<AttributeError>"
+            except Exception as ex:  # noqa
+                v = f"<raised {type(ex).__name__}: {ex}>"
+            b = ref[n]
+            if snap_same(v, b):
+                continue
+            sv, sb = (v if isinstance(v, str) else desc(v)), (b if isinstance(b, str) else desc(b))
+            detail = ""
+            if isinstance(v, np.ndarray) and isinstance(b, np.ndarray) and v.shape == b.shape and v.dtype == b.dtype and v.dtype != object and v.size:
+                off = ~((v == b) | ((v != v) & (b != b)))
+                if np.any(off):
+                    j = int(np.nonzero(off.ravel())[0][0])
+                    detail = f"; {int(off.sum())} of {v.size} entries differ, e.g. bin {j}: {v.ravel()[j]!r} vs {b.ravel()[j]!r}"
+            where = {"self": "the result", "held": "the result (names it already holds)", "probe": "a deep copy of the result"}.get(via, via)
+            add_violation(P, f"{tag}: after [{' '.join(done)}] attribute {n} of {where} is {sv}, the pristine twin has {sb}{detail} "
+                             f"(a read-only operation must leave every name of dir(result) as it was)",
+                          {"check": "step", "mode": mode, "op": op, "via": via, "none_flip": (v is None) != (b is None)}, case, {"ops": list(done), "name": n})
+            return False
+    return True
+
+
+def check_step(P: C.Part, cur, case, tag: str, ref: Dict[str, Any], done: List[str], via: str, rng: np.random.Generator, ct0: Any, pub: Optional[List[str]]) -> bool:
+    """after ONE operation of a sequence: every public data name of dir(result) equals the pristine twin's, dir() lists the same public names,
+    compute_t is the object's own, and the identities of (a) hold.  via = "self": everything is read on the object itself (in a random order);
+    via = "probe": only the names the object already holds are read on it (its lazy state stays as the operations made it) and the full read and the
+    identities run on a deep copy, which carries that state along"""
+    mode = "cross" if case["recipe"]["iscsd"] else "auto"
+    after = f" after [{' '.join(done)}]"
+    target = cur
+    if via == "probe":
+        if not check_all(P, cur, case, tag, ref, held_names(cur, ref), done, "held"):
+            return False
+        with quiet():
+            target = copy.deepcopy(cur)
+    order = [str(n) for n in rng.permutation(list(ref))]
+    if not check_all(P, target, case, tag, ref, order, done, via):
+        return False
+    if ct0 is not None:
+        P.cases += 1
+        if not bits_equal(_try_read(target, "compute_t"), ct0):
+            add_violation(P, f"{tag}:{after} compute_t differs from the original's", {"check": "step", "mode": mode, "what": "compute_t", "via": via}, case, {"ops": list(done)})
+            return False
+    if pub is not None:
+        P.cases += 1
+        now = [n for n in dir(cur) if not n.startswith("_")]
+        gone = [n for n in pub if n not in now]
+        if gone:
+            add_violation(P, f"{tag}:{after} dir(result) no longer lists {gone[:6]}", {"check": "step", "mode": mode, "what": "dir", "via": via}, case, {"ops": list(done)})
+            return False
+        if len(now) != len(pub):
+            P.hit("step.dir-gained-a-public-name")
+    check_identities(P, target, case, tag + after)
+    return True
+
+
 def check_sequence(P: C.Part, res, twin, case: Dict[str, Any], tag: str, rng: np.random.Generator, names: List[str], box: Optional[Dict[str, Any]] = None) -> Any:
-    """random operations on `res` (fresh cache); the final object, and the original, must agree bit-for-bit with the untouched twin"""
+    """random operations on `res` (fresh cache); after EVERY operation, and at the end for the final object and the original, every name must agree
+    bit-for-bit with the untouched twin"""
     rec = case["recipe"]
     kind, mode = rec["kind"], ("cross" if res.iscsd else "auto")
     allnames = list(names) + [d for d in DATA_FIELDS if d not in names]
+    # every further public non-callable name that dir(result) lists (iscsd, fs, extra keys of the result dictionary)
+    pub: Optional[List[str]] = None
+    try:
+        pub = [n for n in dir(twin) if not n.startswith("_")]
+        for n in pub:
+            if n not in allnames and not callable(_try_read(twin, n)):
+                allnames.append(n)
+    except Exception:  # noqa
+        pub = None
     ct0 = None
     try:
         ct0 = copy_val(read(res, "compute_t"))
@@ -872,7 +1146,19 @@ def check_sequence(P: C.Part, res, twin, case: Dict[str, Any], tag: str, rng: np
     nonfin_names = [n for n in allnames if numeric_table(ref_sorted[n], nfg) and has_nonfinite(ref_sorted[n])] if grid_ok else []
     if nonfin_names:
         P.hit("seq.result-with-nonfinite-tables")
-    ops = list(case.get("forced_ops") or [str(o) for o in rng.choice(OPS, size=int(rng.integers(3, 13)))])
+    Kq = ref_sorted.get("K")
+    shape_cls = "single-bin" if nfg == 1 else ("uniform-K" if isinstance(Kq, np.ndarray) and Kq.ndim == 1 and len(set(int(k) for k in Kq)) == 1 else "multi-bin")
+    if case.get("forced_ops"):
+        ops = list(case["forced_ops"])
+    else:
+        ops = [str(o) for o in rng.choice(OPS, size=int(rng.integers(3, 13)))]
+        # "plotx" = a plot() call that draws nothing (wrong result kind / unknown `which`): free; the figure-making calls are a per-case budget
+        ops = [("plot:" + enc_plot(plot_inapplicable(rng, bool(res.iscsd)))) if o == "plotx" else o for o in ops]
+        for spec in plot_plan(rng, bool(res.iscsd), int(case.get("plots") or 0), case.get("plot_phase")):
+            ops.insert(int(rng.integers(0, len(ops) + 1)), "plot:" + enc_plot(spec))
+    # how the per-step comparison reads the object (see check_step)
+    via = "self" if rng.random() < 0.5 else "probe"
+    P.hit(f"seq.step-check.{via}")
     cur = res
     done: List[str] = []
     for op in ops:
@@ -881,7 +1167,17 @@ def check_sequence(P: C.Part, res, twin, case: Dict[str, Any], tag: str, rng: np
         P.hit(f"seq.{op}")
         try:
             with quiet():
-                if op == "query":
+                if op in ("plot", "plotx"):
+                    spec = dec_plot(arg) if arg else (plot_inapplicable(rng, bool(res.iscsd)) if op == "plotx" else plot_plan(rng, bool(res.iscsd), 1)[0])
+                    done.append("plot:" + enc_plot(spec))
+                    made, exc = run_plot(cur, spec)
+                    w = spec.get("which")
+                    P.hit(f"seq.plot.{w}.{'band' if spec.get('errors') else 'plain'}.{'drawn' if made else 'raised-' + str(exc)}")
+                    if made:
+                        P.hit(f"seq.plot.drawn.{mode}.{shape_cls}")
+                        P.nontrivial.add((shape_cls, mode, "plot", w, bool(spec.get("errors")), spec.get("sigma", 1) != 1, bool(spec.get("deg", True)),
+                                          bool(spec.get("dB", False)), bool(spec.get("unwrap", True)), bool(spec.get("ax"))))
+                elif op == "query":
                     if not grid_ok:
                         P.hit("seq.query.no-grid")
                         continue
@@ -918,12 +1214,19 @@ def check_sequence(P: C.Part, res, twin, case: Dict[str, Any], tag: str, rng: np
                         return cur
                 elif op == "rms":
                     band = None
-                    if grid_ok and rng.random() < 0.6:
+                    form = arg if arg in RMS_FORMS + ["outside"] else "none"
+                    if grid_ok and (arg == "band" or (not arg and rng.random() < 0.6)):
                         a, b = sorted(float(v) for v in rng.uniform(0.5 * float(fgrid[0]), 1.5 * float(fgrid[-1]) + 1e-3, size=2))
                         band = (a, b) if rng.random() < 0.8 else (b, a)
-                    done.append("rms" if band is None else "rms:band")
+                        form = "band"
+                    elif not arg and grid_ok and rng.random() < 0.75:
+                        form = str(rng.choice(RMS_FORMS))
+                    if form not in ("none", "band"):
+                        band = rms_band(rng, fgrid if grid_ok else None, form)
+                    done.append("rms" if form == "none" else f"rms:{form}")
                     try:
                         cur.get_rms(band)
+                        P.hit(f"seq.rms.{form}.answered")
                     except Exception:  # noqa  (cross results, one-bin tables, empty bands: whether get_rms answers is not this property)
                         P.hit("seq.rms.raised")
                     if not check_untouched(P, cur, case, tag, ref_sorted, ["f", "asd", "psd", "Gxx", "G", "ENBW", "ps"], done, "rms"):
@@ -975,6 +1278,14 @@ def check_sequence(P: C.Part, res, twin, case: Dict[str, Any], tag: str, rng: np
         if type(cur) is not type(res):
             add_violation(P, f"{tag}: after [{' '.join(done)}] the object is a {type(cur).__name__}", {"check": "sequence", "mode": mode, "what": "type"}, case, {"ops": done})
             return cur
+        # after EVERY operation: all of dir(result) against the pristine twin, and the identities
+        try:
+            if not check_step(P, cur, case, tag, ref_sorted, done, via, rng, ct0, pub):
+                return cur
+        except Exception as ex:  # noqa  (reading / deep-copying a result that went through read-only operations raised: a failure of the property)
+            add_violation(P, f"{tag}: after [{' '.join(done)}] re-reading the result ({via}) raised {type(ex).__name__}: {str(ex)[:120]}",
+                          {"check": "step", "mode": mode, "what": "raises", "via": via, "exc": type(ex).__name__}, case, {"ops": list(done)})
+            return cur
     if any(o.split(":")[0] in ("copy", "deepcopy", "pickle") for o in done):
         P.nontrivial.add((kind, mode, "seq", tuple(o.split(":")[0] for o in done)))
     # final object: first read (random order), then a second read of everything (a read must not disturb what was read before)
@@ -1003,9 +1314,12 @@ def check_sequence(P: C.Part, res, twin, case: Dict[str, Any], tag: str, rng: np
 
 
 # ---------------------------------------------------------------- one case
-def run_case(P: C.Part, recipe: Dict[str, Any], case_seed: int, names: List[str], forced_ops: Optional[List[str]] = None) -> None:
+def run_case(P: C.Part, recipe: Dict[str, Any], case_seed: int, names: List[str], forced_ops: Optional[List[str]] = None, plots: int = 0,
+             phase: Optional[int] = None) -> None:
+    """plots = number of figure-making plot() calls mixed into the random operation sequence of this case, phase = the (deg, unwrap, dB) setting of
+    its bode plots (both part of the replay)"""
     rng = np.random.default_rng(int(case_seed))
-    case = {"recipe": recipe, "case_seed": int(case_seed), "forced_ops": forced_ops}
+    case = {"recipe": recipe, "case_seed": int(case_seed), "forced_ops": forced_ops, "plots": int(plots), "plot_phase": None if phase is None else int(phase)}
     kind = recipe["kind"]
     try:
         res = build(recipe)
@@ -1088,6 +1402,14 @@ def corpus() -> List[Tuple[Dict[str, Any], int, List[str]]]:
                 9, ["meas", "query:cf_db", "query:Hxy_rad_error", "query:XX", "pickle", "meas"]))
     out.append(({"fn": "compute_spectrum", "kind": "corpus-C20c", "iscsd": False, "fs": 1.0, "data": z, "kw": {"Jdes": 12, "Kdes": 2}},
                 10, ["rms", "query:asd", "query:psd", "rms", "df", "query:Gxx_dev"]))
+    # seeded defect C10g (plot(which="bode", errors=True, sigma=k) scaled the cached Hxy_mag_error / Hxy_deg_error / Hxy_rad_error IN PLACE): plots with
+    # an error band of sigma != 1 (degree band, radian band, a single-axis quantity), each followed by reads / exports / further plots; and the
+    # auto-spectrum example of the README (3-sigma band on the asd) followed by the remaining read-only operations
+    out.append(({"fn": "compute_spectrum", "kind": "corpus-C10g", "iscsd": True, "fs": 2.0, "data": xy, "kw": {"Jdes": 20, "Kdes": 5, "order": 0, "win": "hann"}},
+                11, ["plot:which=bode,errors=True,sigma=3", "read:Hxy_mag_error", "plot:which=None,errors=True,sigma=2,deg=False,dB=True,unwrap=False", "df",
+                     "copy", "plot:which=coh,errors=True,sigma=0.5", "query:Hxy_rad_error", "pickle:4", "read:Hxy_deg_error"]))
+    out.append(({"fn": "compute_spectrum", "kind": "corpus-C10g", "iscsd": False, "fs": 1.0, "data": x, "kw": {"Jdes": 15, "Kdes": 3}},
+                12, ["plot:which=asd,errors=True,sigma=3", "rms:inside", "read:asd", "plot:which=bode,errors=True,sigma=2", "repr", "len", "dir", "rms:grid", "df"]))
     return out
 
 
@@ -1919,6 +2241,32 @@ def oracle(ctx, intensive: bool = False, hints: List[Dict[str, Any]] = ()) -> C.
     for rec, seed, ops in corpus():
         run_case(P, rec, seed, names, ops)
         P.hit("corpus")
+    # the plot stream: auto / cross x multi-bin / single-bin / uniform-K / one more random kind; every result gets figure-making plot() calls
+    # (one per applicable `which` with an error band of sigma != 1, bode with the degree and the radian band, then random options) mixed into a
+    # random sequence of the other operations
+    n_cross = 0
+    for rep_ in range(ctx.scale(1, 10) * (2 if intensive else 1)):
+        for kind, cross in PLOT_STREAM:
+            if ctx.time_left() < 60 or len(P.violations) >= MAX_VIOL:
+                break
+            # the fourth pair: a cross result with a dead channel (tables that legitimately hold -inf / inf / NaN) on even rounds, else any other kind
+            kind = kind or ("dead" if (cross and rep_ % 2 == 0) else str(ctx.rng.choice(["band", "equalK-band", "fake", "dead", "edge"])))
+            rec = None
+            for attempt in range(6 if kind == "dead" else 1):
+                try:
+                    with quiet():
+                        rec = gen_recipe(ctx.rng, kind, cross)
+                        if kind != "dead" or not np.all(np.isfinite(read(build(rec), "cf_db"))):
+                            break                          # a dead-channel result is wanted for its cf = 0, cf_db = -inf, errors = inf bins
+                        P.hit("plot-stream.dead-recipe-without-nonfinite-table")
+                except LIBERR as ex:  # noqa
+                    P.hit(f"recipe-failed.{kind}.{type(ex).__name__}")
+            if rec is None:
+                continue
+            seed = int(ctx.rng.integers(0, 2 ** 31 - 1))
+            run_case(P, rec, seed, names, plots=PLOTS_CROSS if cross else PLOTS_AUTO, phase=n_cross % 8)
+            n_cross += int(bool(cross))
+            P.hit("plot-stream")
     n = ctx.scale(200, 3000) * (4 if intensive else 1)
     for i in range(n):
         if ctx.time_left() < 20:
@@ -1934,7 +2282,7 @@ def oracle(ctx, intensive: bool = False, hints: List[Dict[str, Any]] = ()) -> C.
             P.hit(f"recipe-failed.{kind}.{type(ex).__name__}")
             continue
         seed = int(ctx.rng.integers(0, 2 ** 31 - 1))
-        run_case(P, rec, seed, names)
+        run_case(P, rec, seed, names, plots=1 if i % 40 == 7 else 0)
         if i < 4:
             P.sample({"op": "oracle", **recipe_summary(rec), "case_seed": seed})
     return P
@@ -1947,5 +2295,5 @@ def replay(ctx, data) -> C.Part:
     names = names + [n for n in FALLBACK_DYN if n not in names]
     for v in data.get("violations", []):
         r = v["replay"]
-        run_case(P, r["recipe"], int(r["case_seed"]), names, r.get("forced_ops"))
+        run_case(P, r["recipe"], int(r["case_seed"]), names, r.get("forced_ops"), int(r.get("plots") or 0), r.get("plot_phase"))
     return P
